@@ -180,9 +180,12 @@ HELPERS = {
         "    cnt += labels_per_compound[i]\nreturn split_labels"]),
     "_map_substrates_to_products": ("rate_suffix: str, labelmap: list[int]", [
         "return ''.join([rate_suffix[i] for i in labelmap])"]),
-    "_unpack_stoichiometries": ("stoichiometries: Mapping[str, int]", [
-        "substrates = []\nproducts = []\nfor k, v in stoichiometries.items():\n    if v < 0:\n"
-        "        substrates.extend([k] * -v)\n    else:\n        products.extend([k] * v)\n"
+    "_unpack_stoichiometries": ("stoichiometries: Mapping[str, float]", [
+        # after "fix: LabelMapper accepts whole-number float coefficients ...": int() first, fractional refused
+        "substrates = []\nproducts = []\nfor k, v in stoichiometries.items():\n    n = int(v)\n    if n != v:\n"
+        "        msg = f'Stoichiometric coefficient of {k} must be a whole number, got {v}'\n"
+        "        raise ValueError(msg)\n    if n < 0:\n"
+        "        substrates.extend([k] * -n)\n    else:\n        products.extend([k] * n)\n"
         "return (substrates, products)"]),
     "_get_labels_per_variable": ("label_variables: dict[str, int], compounds: list[str]", [
         "return [label_variables.get(compound, 0) for compound in compounds]"]),
